@@ -19,10 +19,15 @@ def _job(a):
     elif check=='sched': v=simcheck.check_schedules(name,Top,k!='acyclic')
     elif check=='flip': v=simcheck.check_flip(name,Top)
     elif check=='fforder': v=simcheck.check_ff_orders(name,Top,name[2:-1],seed)
+    elif check=='defect': v=simcheck.check_defect(name,Top,fam)
+    elif check=='netvalues': v=simcheck.check_net_values(name,Top,seed)
     else: raise ValueError(check)
     return dict(check=check,design=name,failed=v,error=None,time=time.time()-t0)
-  except Exception as e:
+  except ImportError as e:
     return dict(check=check,design=name,failed=[],error=f"{type(e).__name__}: {e}",trace=traceback.format_exc()[-1500:],time=time.time()-t0)
+  except Exception as e:
+    # every zoo design elaborates and simulates on the baseline: an exception here is the design being rejected / crashing
+    return dict(check=check,design=name,failed=[f"the design could not be elaborated/simulated: {type(e).__name__}: {str(e)[:160]}"],error=None,time=time.time()-t0)
   finally:
     for f in ('/tmp/upblk-dag.gv','/tmp/upblk-dag.gv.pdf'):
       try: os.unlink(f)
@@ -32,7 +37,48 @@ CHECK_DOC={'sim':"all pass groups / tie-break seeds agree on every signal after 
  'dag':"GenDAGPass orders each writer before each bit-overlapping reader and constraint_objs covers the communicated bits",
  'sched':"every scheduler places each block exactly once and respects all_constraints",
  'flip':"the generated double-buffer function flips exactly the signals written with <<=",
+ 'defect':"a design with a structural defect (two drivers of a bit, undriven net, connection loop, forbidden hierarchical access, wrong assignment operator) fails elaboration with the corresponding error for every order of its statements; a design without defect elaborates",
+ 'nets':"connect statements in any order and with either side first elaborate to the same nets = connected components, each with exactly one writer that is a member; in simulation every member carries the writer's value",
+ 'netvalues':"every member of a net carries the writer's value",
  'fforder':"register traces are independent of the order of update_ff blocks and equal the pre-edge reference"}
+
+def _netjob(a):
+  group,items,repo=a
+  if repo not in sys.path: sys.path.insert(0,repo)
+  from zoo import designs, simcheck
+  t0=time.time()
+  try:
+    grp=[(n,designs.load(n,b)[0]) for n,b in items]
+    return dict(check='nets',design=f"E[{group};*]",failed=simcheck.check_nets(grp),error=None,time=time.time()-t0,body='\n# ----\n'.join(b for _,b in items[:2]))
+  except Exception as e:
+    return dict(check='nets',design=f"E[{group};*]",failed=[],error=f"{type(e).__name__}: {e}",time=time.time()-t0,body='')
+
+def run_special(check,repo,seed,tier,procs=16):
+  """families with their own shape: D (defects; expected outcome per design) and E (connection permutations grouped)."""
+  from zoo import designs
+  if check=='defect':
+    items=designs.family_D()
+    jobs=[('defect',exp,name,body,repo,seed) for name,body,exp in items]
+    with Pool(min(procs,len(jobs))) as p: res=p.map(_job,jobs,chunksize=2)
+    srcs={n:b for n,b,_ in items}; exps={n:e for n,b,e in items}
+    fails=[dict(args={'design':r['design']},failed=[m],custom=dict(kind='custom',module='zoo.replay',entry='replay_design',check='defect',design=r['design'],body=srcs[r['design']],expected=exps[r['design']],seed=seed)) for r in res for m in r['failed']]
+    errs=[f"{r['design']}: {r['error']}" for r in res if r['error']]
+    bound=f"{CHECK_DOC['defect']}; family D of zoo/designs.py ({len(items)} designs incl. every statement order of each defect)"
+    return [dict(key="zoo::defect[D]",ok=not errs,error='; '.join(errs[:3]) if errs else None,obligations=[],kind='bounded-standin',lines=None,ast_hash=None,info=None,
+                 time=sum(r['time'] for r in res),is_standin=True,standin=dict(evaluations=len(res),failures=fails,bound=bound,per_case={}))]
+  items=designs.family_E(6 if tier=='quick' else 24)
+  groups={}
+  for n,b,g in items: groups.setdefault(g,[]).append((n,b))
+  with Pool(min(procs,len(groups))) as p: res=p.map(_netjob,[(g,it,repo) for g,it in groups.items()])
+  jobs=[('netvalues',None,n,b,repo,seed) for n,b,g in items]
+  with Pool(min(procs,len(jobs))) as p: res2=p.map(_job,jobs,chunksize=4)
+  srcs={n:b for n,b,_ in items}
+  fails=[dict(args={'design':r['design']},failed=[m],custom=dict(kind='custom',module='zoo.replay',entry='replay_nets',group=r['design'][2:-3],seed=seed)) for r in res for m in r['failed']]
+  fails+=[dict(args={'design':r['design']},failed=[m],custom=dict(kind='custom',module='zoo.replay',entry='replay_design',check='netvalues',design=r['design'],body=srcs[r['design']],seed=seed)) for r in res2 for m in r['failed']]
+  errs=[f"{r['design']}: {r['error']}" for r in res+res2 if r['error']]
+  bound=f"{CHECK_DOC['nets']}; family E of zoo/designs.py: {len(groups)} connection multisets x permutations x side flips = {len(items)} designs"
+  return [dict(key="zoo::nets[E]",ok=not errs,error='; '.join(errs[:3]) if errs else None,obligations=[],kind='bounded-standin',lines=None,ast_hash=None,info=None,
+               time=sum(r['time'] for r in res+res2),is_standin=True,standin=dict(evaluations=len(res)+len(res2),failures=fails,bound=bound,per_case={}))]
 
 def run(checks,families,repo,seed,tier,procs=16):
   """checks: list of check names; families: list of family letters. returns results in pyvc result shape (one per check)."""
